@@ -928,9 +928,22 @@ def part_born(run, rng, rs, lines, meta):
 
     thorough = run.tier == "thorough"
     names = ["perovskite", "rutile", "quartz", "wurtzite", "hcp", "nacl_prim", "zincblende_prim", "cscl"]
+    # the same crystals described by left-handed / sheared lattice vectors (own random stream: the tensors of the
+    # cases above stay what they were): the expansion of the independent atoms' tensors by symmetry must not depend on it
+    import random as _random
+
+    rr = _random.Random(16016 + 7919 * run.seed)
+    det_minus, det_plus = ["swap12", "negate3", "invert"], ["shear", "cyclic"]
+    dependent = ["perovskite", "rutile", "quartz", "wurtzite"]
+    names += ["%s~%s" % (rr.choice(dependent), rr.choice(det_minus)), "%s~%s" % (rr.choice(dependent), rr.choice(det_minus + det_plus))]
+    if thorough:
+        names += ["%s~%s" % (c, m) for c in dependent for m in det_minus + det_plus]
     reps = 4 if thorough else 1
     for name in names:
-        cell = quartz_cell() if name == "quartz" else gen.make_cell(name)[0]
+        base, _, mname = name.partition("~")
+        cell = quartz_cell() if base == "quartz" else gen.make_cell(base)[0]
+        if mname:
+            cell = gen.relabelled_cell(cell, gen.UNIMODULAR[mname])[0]
         ph = Phonopy(cell, supercell_matrix=np.eye(3, dtype=int), primitive_matrix="P", log_level=0)
         prim = ph.primitive
         npa = len(prim)
